@@ -65,6 +65,32 @@ class _Inner:
             else:
                 self.w = np.zeros(X.shape[1])
                 self.b = 0.0
+        elif k == "online":
+            # one pass of a perceptron-like update: deliberately sensitive to the order of the rows
+            sd = X.std(axis=0) + 1e-9
+            Z = (X - X.mean(axis=0)) / sd
+            w = np.zeros(X.shape[1])
+            b = 0.0
+            for i in range(len(y)):
+                t = 1.0 if y[i] == 1 else -1.0
+                if t * (Z[i] @ w + b) < 1.0:
+                    w += 0.05 * t * Z[i]
+                    b += 0.05 * t
+            self.w = w / sd
+            self.b = b - float((X.mean(axis=0) / sd) @ w)
+        elif k == "overfit":
+            # memorises its training rows exactly, generalises poorly (a degraded linear direction elsewhere)
+            pos, neg = X[y == 1], X[y != 1]
+            sd = X.std(axis=0) + 1e-9
+            self.w = (pos.mean(axis=0) - neg.mean(axis=0)) / sd**2 if len(pos) and len(neg) else np.zeros(X.shape[1])
+            self.scale = float(np.std(X @ self.w)) or 1.0
+            self.memory = {int(r): (1.0 if t == 1 else -1.0) for r, t in zip(self.rids, y)}
+        elif k == "weak":
+            pos, neg = X[y == 1], X[y != 1]
+            sd = X.std(axis=0) + 1e-9
+            self.w = (pos.mean(axis=0) - neg.mean(axis=0)) / sd**2 if len(pos) and len(neg) else np.zeros(X.shape[1])
+            self.b = 0.0
+            self.scale = float(np.std(X @ self.w)) or 1.0
         elif k == "svc":
             from sklearn.svm import LinearSVC
 
@@ -85,8 +111,17 @@ class _Inner:
 
     def score(self, X):
         k = self.kind
-        if k == "linear":
+        if k in ("linear", "online"):
             return X @ self.w + self.b
+        if k == "overfit":
+            h = np.abs(np.sin(X.sum(axis=1) * 78.233 + self.seed) * 43758.5453)
+            base = (X @ self.w) / self.scale + (0.6 + 0.3 * (self.seed % 2)) * ((h - np.floor(h)) - 0.5) * 3.46
+            mem = np.array([self.memory.get(int(r), 0.0) for r in self.score_rids])
+            return np.where(mem != 0, mem * 50.0 + 0.01 * base, base)
+        if k == "weak":
+            # a real but degraded ranking: the learned direction plus content-keyed pseudo-noise
+            h = np.abs(np.sin(X.sum(axis=1) * 78.233 + self.seed) * 43758.5453)
+            return X @ self.w + 1.1 * self.scale * ((h - np.floor(h)) - 0.5) * 3.46
         if k == "invert":
             return -(X @ self.w + self.b)
         if k == "svc":
@@ -142,7 +177,9 @@ class RecordingEstimator(BaseEstimator):
         uid = self._uid()
         rids, Xi = self._split(X)
         self._sleep(rids)
-        self.inner_ = _Inner(self.kind, self.seed).fit(Xi, y)
+        self.inner_ = _Inner(self.kind, self.seed)
+        self.inner_.rids = rids
+        self.inner_.fit(Xi, y)
         self._last_X = None
         self.n_fit_ += 1
         with LOCK:
@@ -155,6 +192,7 @@ class RecordingEstimator(BaseEstimator):
     def _score(self, X):
         uid = self._uid()
         rids, Xi = self._split(X)
+        self.inner_.score_rids = rids
         out = np.asarray(self.inner_.score(Xi), dtype=float)
         # mokapot's _get_scores calls predict_proba twice on the *same array object* for
         # two-column outputs: that is one logical scoring, logged once (identity, not equality)
